@@ -76,7 +76,7 @@ def fault_case(seed, target_len, shift):
     n = 0
     while sum(len(t) + 1 for t in toks) < target_len:
         n += 1
-        toks.append(f'q{seed % 97:02d}x{n:03d}' if n % 3 else f"'s{n:03d}'")
+        toks.append((f'{n}e+2' if n % 2 else f'{n}.25') if n % 5 == 0 else f'q{seed % 97:02d}x{n:03d}' if n % 3 else f"'s{n:03d}'")
         toks.append(rnd.choice(['+', '-', '*', '==', '&&', '<']))
     toks = toks[:-1] or ['zz9']
     if kind == 'expr':
@@ -140,7 +140,7 @@ def fault_case(seed, target_len, shift):
 
 
 VOCAB = ['if', 'elif', 'else:', 'endif', 'while', 'endwhile', 'for', 'in', 'endfor', 'function', 'endfunction', 'break', 'continue', 'return', 'jump',
-         'jumpif', 'include', 'x', 'y1', '=', '==', '(', ')', ':', ',', '1', "'s'", '"', "'", '+', '-', '!', '\\', '#', '[', ']', '<a>', '...', 'async', '@']
+         'jumpif', 'include', 'x', 'y1', '=', '==', '(', ')', ':', ',', '1', '1e+3', '2.5e-3', '10', '0.5', '1e3', '1.', '1e+400', '-7', "'s'", '"', "'", '+', '-', '!', '\\', '#', '[', ']', '<a>', '...', 'async', '@']
 
 
 def soup_case(seed):
